@@ -13,7 +13,9 @@ RULE = ("Exhaustive grids, oracle = accept/reject transcribed from the statement
         "float4x4: row index and column index -2..5. (4) index expression types: int, uint, float variable, float "
         "literal, comparison result, arithmetic, vector, on arrays, vectors and matrices; dynamic in-type indices must "
         "never be rejected. (5) swizzles: every mask of length 1-3 over {x,y,z,w,r,g,b,a,q,s} on float/int vectors "
-        "of size 2-4 and (quick: every 9th, thorough: all) of length 4, reads and non-repeating writes. Accepted = "
+        "of size 2-4 and (quick: every 9th, thorough: all) of length 4, reads and non-repeating writes, alone and after a "
+        "valid use of the same mask on a wider vector in the same function; array chains also with dynamic neighbours "
+        "of the constant index. Accepted = "
         "Compile does not fail in the front end. Non-trivial = constant on either side of a boundary (c in {-1, 0, "
         "size-1, size}), a non-int index type, or a mask with >= 2 letters; distinct by source text.")
 ASSUMPTIONS = [
@@ -60,8 +62,9 @@ def judge(ctx, src, accept, sig, why, case, boundary):
 # -- (1) arrays ------------------------------------------------------------------------
 
 def array_case(ctx, case):
-    shape, depth, dim, c, style, rw, storage = case
-    idx = ["0"] * depth
+    shape, depth, dim, c, style, rw, storage = case[:7]
+    others = case[7] if len(case) > 7 else "const"
+    idx = ["0" if others == "const" else "p"] * depth
     idx[dim] = spell(c, style)
     access = "t" + "".join(" [ %s ]" % i for i in idx)
     decl = "int %s t" % "".join("[ %d ]" % d for d in shape)
@@ -75,6 +78,7 @@ def array_case(ctx, case):
     where = "below" if c < 0 else ("above" if c >= size else "inside")
     sig = "array|dim%d-of-%d|%s" % (dim, len(shape), where)
     ctx.label("array:%s:%s:%s" % (rw, storage, style))
+    ctx.label("array-other-indices:" + others)
     judge(ctx, src, accept, sig, "constant index %d into dimension %d (size %d) of int%s" % (
         c, dim, size, "".join("[%d]" % d for d in shape)), case, c in (-1, 0, size - 1, size))
 
@@ -101,6 +105,9 @@ def array_items(full):
                                 k += 1
                                 sty = "dec" if c < 0 else styles[k % 3]
                                 out.append((shape, depth, dim, c, sty, rw, storages[(k // 3) % 3]))
+                            if depth > 1 and (full or c in (-1, shape[dim])):
+                                # the other indices of the chain are dynamic (p), left and right of the constant
+                                out.append((shape, depth, dim, c, "dec", rw, storages[k % 3], "dynamic"))
     return out
 
 
@@ -201,7 +208,8 @@ def mask_ok(mask, n):
 
 
 def swizzle_case(ctx, case):
-    comp, n, mask, rw = case
+    comp, n, mask, rw = case[:4]
+    after_wider = len(case) > 4
     ty = "%s%d" % (comp, n)
     rty = comp if len(mask) == 1 else "%s%d" % (comp, len(mask))
     if rw == "write":
@@ -211,6 +219,11 @@ def swizzle_case(ctx, case):
     else:
         stmt = "%s r = v . %s ;" % (rty, mask)
     src = "export function f ( %s v ) -> int {\n %s\n return 0 ;\n}\n" % (ty, stmt)
+    if after_wider:
+        # the same mask is used (validly) on a 4-component vector first
+        pre = "%s q0 = q . %s ;" % (rty, mask)
+        src = "export function f ( %s4 q , %s v ) -> int {\n %s\n %s\n return 0 ;\n}\n" % (comp, ty, pre, stmt)
+        ctx.label("swizzle:after-valid-use-on-wider-vector")
     ok = mask_ok(mask, n)
     if not ok:
         why = ("foreign-letter" if any(ch not in "xyzwrgba" for ch in mask) else
@@ -232,6 +245,8 @@ def swizzle_items(full):
                     masks = masks[(n + (0 if comp == "float" else 4))::9]
                 for m in masks:
                     out.append((comp, n, m, "read"))
+                    if n < 4 and mask_ok(m, 4) and (L <= 2 or full or hash_mod(m) < 2):
+                        out.append((comp, n, m, "read", "after-wider"))
                     if len(set(m)) == len(m) and (L <= 2 or full or hash_mod(m) == 0):
                         out.append((comp, n, m, "write"))
     return out
@@ -250,5 +265,6 @@ def run(R):
     R.enum("swizzles", lambda: swizzle_items(full), swizzle_case, exhaustive=full, chunks=64)
     for l in ("expected-accept", "expected-reject", "vector:read", "vector:write", "matrix:row", "matrix:column",
               "swizzle:valid:len4", "swizzle:mixed-sets:len2", "swizzle:component-out-of-range:len1",
-              "swizzle:foreign-letter:len3", "indextype:float-literal", "indextype:comparison-result"):
+              "swizzle:foreign-letter:len3", "indextype:float-literal", "indextype:comparison-result",
+              "array-other-indices:dynamic", "swizzle:after-valid-use-on-wider-vector"):
         R.require(l)
